@@ -1,5 +1,5 @@
 import GradysModel.Sim
-import GradysProofs.Lemmas.GeoReal
+import GradysProofs.Lemmas.GeoSmall
 /-
   C20 — geographic targets map to a metrically faithful local frame.
 
@@ -9,6 +9,13 @@ import GradysProofs.Lemmas.GeoReal
   radian values `rad x = x·(π/180) = Scalar.radians x` (`GeoReal.rad_eq`).  `R = 6371000`.
 
   A position triple `V3` used as a geographic point is (lat, lon, alt) = (x, y, z).
+
+  * `C20_meridian_leg`, `C20_parallel_leg`   the two legs in closed form, two-sided bound of the parallel leg
+  * `C20_axes_signs`, `C20_axes_closed_form` which leg goes where, with which sign, all four quadrants
+  * `C20_meridian_exact`                     exact distances along the reference meridian (F20's statement)
+  * `C20_small_offsets` (`_box`, `C20_within_5km_in_box`)  the general 0.5 % bound, proved with 0.3 %
+  * `C20_goto_geo`                           geographic goto = Cartesian goto to the converted point (any scalar)
+  * `C20_pinned_mirror_distance`             what the pinned assignment of the legs does (F20)
 -/
 open Real
 
@@ -184,6 +191,113 @@ theorem C20_meridian_exact (ref : V3 ℝ) (lat1 alt1 lat2 alt2 : ℝ)
 example : |rad 11 - rad 10| ≤ π ∧ |rad 9 - rad 10| ≤ π := by
   unfold rad
   constructor <;> rw [abs_le] <;> constructor <;> nlinarith [pi_pos]
+
+/-! ### metric faithfulness near the reference, in every quadrant -/
+
+/-- **0.5 % bound (proved with 0.3 %), box form.**  Reference latitude within ±60° (`|φ₀| ≤ π/3`); two
+    targets anywhere — any quadrant, any side of the reference — in the box
+    `|Δφ| ≤ 10⁻³ rad`, `cos φ₀·|Δλ| ≤ 10⁻³ rad` around the reference, i.e. north–south and
+    east–west offsets up to `R·10⁻³ = 6.371 km` each (the box contains the disc of 5 km around the
+    reference: `C20_within_5km_in_box` below).  Then the distance between the converted points differs
+    from the true distance — great-circle (haversine) distance combined with the altitude
+    difference by Pythagoras — by at most 0.3 % of the latter, hence by less than 0.5 %. -/
+theorem C20_small_offsets_box (ref t1 t2 : V3 ℝ) (hφ : |rad ref.x| ≤ π / 3)
+    (h1u : |rad t1.x - rad ref.x| ≤ 1 / 1000)
+    (h1v : cos (rad ref.x) * |rad t1.y - rad ref.y| ≤ 1 / 1000)
+    (h2u : |rad t2.x - rad ref.x| ≤ 1 / 1000)
+    (h2v : cos (rad ref.x) * |rad t2.y - rad ref.y| ≤ 1 / 1000) :
+    |√(V3.sqdist (geoToCartesian ref t1) (geoToCartesian ref t2))
+        - √(haversine t1.x t1.y t2.x t2.y ^ 2 + (t2.z - t1.z) ^ 2)|
+      ≤ 3 / 1000 * √(haversine t1.x t1.y t2.x t2.y ^ 2 + (t2.z - t1.z) ^ 2) ∧
+    |√(V3.sqdist (geoToCartesian ref t1) (geoToCartesian ref t2))
+        - √(haversine t1.x t1.y t2.x t2.y ^ 2 + (t2.z - t1.z) ^ 2)|
+      ≤ 5 / 1000 * √(haversine t1.x t1.y t2.x t2.y ^ 2 + (t2.z - t1.z) ^ 2) := by
+  have hpi : (2:ℝ) ≤ π := two_le_pi
+  have hc : 1 / 2 ≤ cos (rad ref.x) := by
+    rw [← cos_abs, ← cos_pi_div_three]
+    exact cos_le_cos_of_nonneg_of_le_pi (abs_nonneg _) (by linarith) hφ
+  have hvb : ∀ v : ℝ, cos (rad ref.x) * |v| ≤ 1 / 1000 → |v| ≤ π := by
+    intro v hv
+    have : 1 / 2 * |v| ≤ cos (rad ref.x) * |v| := mul_le_mul_of_nonneg_right hc (abs_nonneg v)
+    linarith
+  have hφ2 : |rad ref.x| ≤ π / 2 := by linarith
+  rw [C20_axes_closed_form ref t1 hφ2 (by linarith) (hvb _ h1v),
+    C20_axes_closed_form ref t2 hφ2 (by linarith) (hvb _ h2v)]
+  obtain ⟨ha0, ha1, hcore⟩ := GeoSmall.small_offsets_core hc h1u h2u h1v h2v
+  have hdl : rad t2.y - rad ref.y - (rad t1.y - rad ref.y) = rad t2.y - rad t1.y := by ring
+  rw [hdl] at ha0 ha1 hcore
+  rw [haversine_arcsin t1.x t1.y t2.x t2.y ha0 ha1]
+  set Hg := 2 * arcsin (√(havA (rad t1.x) (rad t2.x) (rad t2.y - rad t1.y))) with hHg
+  set DX := 2 * arcsin (cos (rad ref.x) * sin ((rad t2.y - rad ref.y) / 2))
+      - 2 * arcsin (cos (rad ref.x) * sin ((rad t1.y - rad ref.y) / 2)) with hDX
+  set Hc := √(DX ^ 2 + (rad t2.x - rad t1.x) ^ 2) with hHc
+  have hHc2 : Hc ^ 2 = DX ^ 2 + (rad t2.x - rad t1.x) ^ 2 := sq_sqrt (by positivity)
+  have hsq : V3.sqdist
+      (⟨2 * R * arcsin (cos (rad ref.x) * sin ((rad t1.y - rad ref.y) / 2)),
+        R * (rad t1.x - rad ref.x), t1.z - ref.z⟩ : V3 ℝ)
+      ⟨2 * R * arcsin (cos (rad ref.x) * sin ((rad t2.y - rad ref.y) / 2)),
+        R * (rad t2.x - rad ref.x), t2.z - ref.z⟩
+      = (R * Hc) ^ 2 + (t2.z - t1.z) ^ 2 := by
+    unfold V3.sqdist
+    simp only [RealScalar.add_eq, RealScalar.sub_eq, RealScalar.sq_eq]
+    rw [mul_pow, hHc2, hDX]
+    ring
+  rw [hsq]
+  have hR : (0:ℝ) ≤ R := by unfold R; norm_num
+  have hHg0 : 0 ≤ Hg := by
+    rw [hHg]
+    have := arcsin_nonneg.mpr (sqrt_nonneg (havA (rad t1.x) (rad t2.x) (rad t2.y - rad t1.y)))
+    linarith
+  have hlip := GeoSmall.abs_sqrt_sq_add_sub_le (R * Hc) (R * Hg) (t2.z - t1.z)
+  have h1 : |R * Hc - R * Hg| ≤ 3 / 1000 * (R * Hg) := by
+    rw [← mul_sub, abs_mul, abs_of_nonneg hR]
+    have := mul_le_mul_of_nonneg_left hcore hR
+    linarith
+  have h2 : R * Hg ≤ √((R * Hg) ^ 2 + (t2.z - t1.z) ^ 2) := by
+    rw [le_sqrt (mul_nonneg hR hHg0) (by positivity)]
+    linarith [sq_nonneg (t2.z - t1.z)]
+  have h3 : 0 ≤ √((R * Hg) ^ 2 + (t2.z - t1.z) ^ 2) := sqrt_nonneg _
+  constructor <;> linarith
+
+/-- non-vacuity: at 45° N, targets 0.02° north-east and 0.03° south-west of the reference
+    satisfy the hypotheses -/
+example : |rad 45| ≤ π / 3 ∧ |rad 45.02 - rad 45| ≤ 1 / 1000 ∧ |rad 44.97 - rad 45| ≤ 1 / 1000 := by
+  unfold rad
+  have h3 : π ≤ 4 := pi_le_four
+  have h0 := pi_pos
+  refine ⟨?_, ?_, ?_⟩ <;> rw [abs_le] <;> constructor <;> nlinarith
+
+/-- A target whose great-circle distance from the reference is at most 5 km (reference latitude
+    within ±60°, target latitude a valid latitude, no wrap-around in longitude) lies in the box of
+    `C20_small_offsets_box`. -/
+theorem C20_within_5km_in_box (ref t : V3 ℝ) (hφ : |rad ref.x| ≤ π / 3) (ht : |rad t.x| ≤ π / 2)
+    (hdl : |rad t.y - rad ref.y| ≤ π) (h5 : haversine ref.x ref.y t.x t.y ≤ 5000) :
+    |rad t.x - rad ref.x| ≤ 1 / 1000 ∧ cos (rad ref.x) * |rad t.y - rad ref.y| ≤ 1 / 1000 := by
+  rw [haversine_real] at h5
+  exact GeoSmall.within_5km_box hφ ht hdl h5
+
+/-- **C20, the general bound.**  For every reference with `|φ₀| ≤ 60°` and every two targets
+    within 5 km (great-circle) of it — in any quadrants, on any sides of the reference — the
+    distance between the converted points is within 0.5 % (indeed 0.3 %) of their true distance:
+    great-circle distance combined with the altitude difference by Pythagoras.
+    Guards: target latitudes are valid latitudes (`|φ| ≤ 90°`) and longitudes do not wrap around
+    (`|Δλ| ≤ 180°`; the source's sign rule compares raw longitudes, so across the antimeridian it
+    is not meaningful). -/
+theorem C20_small_offsets (ref t1 t2 : V3 ℝ) (hφ : |rad ref.x| ≤ π / 3)
+    (hl1 : |rad t1.x| ≤ π / 2) (hw1 : |rad t1.y - rad ref.y| ≤ π)
+    (hl2 : |rad t2.x| ≤ π / 2) (hw2 : |rad t2.y - rad ref.y| ≤ π)
+    (h1 : haversine ref.x ref.y t1.x t1.y ≤ 5000) (h2 : haversine ref.x ref.y t2.x t2.y ≤ 5000) :
+    |√(V3.sqdist (geoToCartesian ref t1) (geoToCartesian ref t2))
+        - √(haversine t1.x t1.y t2.x t2.y ^ 2 + (t2.z - t1.z) ^ 2)|
+      ≤ 5 / 1000 * √(haversine t1.x t1.y t2.x t2.y ^ 2 + (t2.z - t1.z) ^ 2) := by
+  obtain ⟨h1u, h1v⟩ := C20_within_5km_in_box ref t1 hφ hl1 hw1 h1
+  obtain ⟨h2u, h2v⟩ := C20_within_5km_in_box ref t2 hφ hl2 hw2 h2
+  exact (C20_small_offsets_box ref t1 t2 hφ h1u h1v h2u h2v).2
+
+/-- non-vacuity of the 5 km hypothesis: the reference itself is within 5 km of the reference -/
+example (ref : V3 ℝ) : haversine ref.x ref.y ref.x ref.y ≤ 5000 := by
+  rw [C20_meridian_leg ref.x ref.y ref.x (by simp [pi_pos.le])]
+  simp
 
 /-! ### the geographic goto -/
 
